@@ -13,9 +13,16 @@ AX = ("x", "y", "z")
 
 
 class C01System(BuilderSystem):
-    def __init__(self, label, dp, values, tracers=True, cls=None, contexts=True):
+    def __init__(self, label, dp, values, tracers=True, cls=None, contexts=True, relabel=None):
         self.label = label
         self.cfg = {"decimal_places": dp}
+        if relabel:
+            # custom axis labels: the interpreter is told which emitted label drives which axis
+            self.cfg.update({f"{a.lower()}_axis": lab for a, lab in relabel.items()})
+            self.labels = {lab.upper(): a for a, lab in relabel.items()}
+            for a in ("X", "Y", "Z"):
+                if a not in relabel:
+                    self.labels[a] = a
         self.dp = dp
         self.values = values
         self.tracers = tracers and cls is None
@@ -37,6 +44,7 @@ class C01System(BuilderSystem):
             for s in shapes:
                 ops.append([kind, [], s])
         ops.append(["move", [[b, None, c]], {}])
+        ops.append(["rapid", [], {"X": ["np64", b], "y": 2}])          # upper-case keyword, numpy scalar, int
         ops.append(["rapid", [["P", None, c, a]], {}])
         ops.append(["move_absolute", [["P", c, b, None]], {}])
         ops.append(["set_axis", [], {"x": a}])
@@ -154,10 +162,12 @@ def systems(tier):
             ("builder-dp1-rounding", C01System("builder-dp1-rounding", 1, rough, tracers=False), 3, None),
             ("core-dp5", C01System("core-dp5", 5, exact, cls=GCodeCore), 3, None),
             ("builder-dp0-integers", C01System("builder-dp0-integers", 0, (0, 120, -10), tracers=False), 3, None),
+            ("builder-relabelled-axes", C01System("builder-relabelled-axes", 4, exact, tracers=True, relabel={"X": "A", "Z": "W"}), 2, None),
         ]
     return [
         ("builder-dp0-integers", C01System("builder-dp0-integers", 0, (0, 120, -10), tracers=True), 3, None),
         ("builder-dp12", C01System("builder-dp12", 12, (0, 0.1, -2.675), tracers=False), 3, None),
+        ("builder-relabelled-axes", C01System("builder-relabelled-axes", 4, exact, tracers=True, relabel={"X": "A", "Z": "W"}), 3, None),
         ("builder-dp5-exact", C01System("builder-dp5-exact", 5, exact), 4, None),
         ("builder-dp1-rounding", C01System("builder-dp1-rounding", 1, rough, tracers=True), 3, None),
         ("builder-dp1-rounding-notrace", C01System("builder-dp1-rounding-notrace", 1, rough, tracers=False), 4, None),
